@@ -29,6 +29,9 @@ func main() {
 
 var commands = map[string]func([]string){}
 
+// flushEach makes stdinLines flush after every line (interactive use: the oracle server)
+var flushEach = false
+
 func stdinLines(f func(line string) string) {
 	sc := bufio.NewScanner(os.Stdin)
 	sc.Buffer(make([]byte, 1<<20), 1<<28)
@@ -37,5 +40,8 @@ func stdinLines(f func(line string) string) {
 	for sc.Scan() {
 		w.WriteString(f(sc.Text()))
 		w.WriteByte('\n')
+		if flushEach {
+			w.Flush()
+		}
 	}
 }
